@@ -182,7 +182,7 @@ func (c *monC06) After(m *Machine, s *Step) *Violation {
 func (c *monC06) End(m *Machine) *Violation { return nil }
 
 var kindsC06 = []wk{
-	{"login", 26}, {"recstart", 6}, {"recend", 10}, {"updpw", 10}, {"newsess", 8}, {"visit", 8}, {"steal", 2},
+	{"login", 26}, {"recstart", 6}, {"recend", 10}, {"updpw", 10}, {"newsess", 8}, {"visit", 8}, {"steal", 2}, {"setcookie", 6},
 	{"snip:recover", 12}, {"snip:remember", 10}, {"logout", 2}, {"advance", 3},
 }
 
